@@ -17,16 +17,17 @@ using namespace Oomd;
 #define H_LAW 1
 #endif
 static const char kAlpha[] = "/*?.ab";
+#define MAXB (H_LEN + H_LEN2 + 2)   /* constant bound of every reference loop (lengths are symbolic after canonicalisation) */
 struct Buf { char c[28]; int n; };   // (larger than 16 bytes on purpose: returned through memory, not coerced into integer registers)
 static Buf sym(int key, int len) { Buf b; b.n = len; for (int i = 0; i < len; i++) b.c[i] = kAlpha[vf_nd(key + i, 0, 5)]; b.c[len] = 0; return b; }
 static std::string str(const Buf& b) { return std::string(b.c, (size_t)b.n); }
 // reference canonical relative path: components separated by single '/', no empty components
-static Buf canon(const Buf& s) { Buf r; r.n = 0; bool pend = false; for (int i = 0; i < s.n; i++) { if (s.c[i] == '/') { pend = r.n > 0; } else { if (pend) r.c[r.n++] = '/'; pend = false; r.c[r.n++] = s.c[i]; } } r.c[r.n] = 0; return r; }
-static bool eq(const std::string& a, const Buf& b) { if ((int)a.size() != b.n) return false; for (int i = 0; i < b.n; i++) if (a[i] != b.c[i]) return false; return true; }
-static bool beq(const Buf& a, const Buf& b) { if (a.n != b.n) return false; for (int i = 0; i < a.n; i++) if (a.c[i] != b.c[i]) return false; return true; }
+static Buf canon(const Buf& s) { Buf r; r.n = 0; bool pend = false; for (int i = 0; i < MAXB; i++) { if (i >= s.n) continue; if (s.c[i] == '/') { pend = r.n > 0; } else { if (pend) r.c[r.n++] = '/'; pend = false; r.c[r.n++] = s.c[i]; } } r.c[r.n] = 0; return r; }
+static bool eq(const std::string& a, const Buf& b) { if ((int)a.size() != b.n) return false; bool r = true; for (int i = 0; i < MAXB; i++) if (i < b.n && a[i] != b.c[i]) r = false; return r; }
+static bool beq(const Buf& a, const Buf& b) { if (a.n != b.n) return false; bool r = true; for (int i = 0; i < MAXB; i++) if (i < a.n && a.c[i] != b.c[i]) r = false; return r; }
 // components of a canonical buffer
-static int ncomp(const Buf& c) { if (c.n == 0) return 0; int k = 1; for (int i = 0; i < c.n; i++) if (c.c[i] == '/') k++; return k; }
-static void comp(const Buf& c, int idx, int* b, int* e) { int k = 0, s = 0; for (int i = 0; i <= c.n; i++) if (i == c.n || c.c[i] == '/') { if (k == idx) { *b = s; *e = i; return; } k++; s = i + 1; } *b = *e = 0; }
+static int ncomp(const Buf& c) { if (c.n == 0) return 0; int k = 1; for (int i = 0; i < MAXB; i++) if (i < c.n && c.c[i] == '/') k++; return k; }
+static void comp(const Buf& c, int idx, int* b, int* e) { int k = 0, s = 0; bool found = false; *b = *e = 0; for (int i = 0; i <= MAXB; i++) { if (i > c.n || found) continue; if (i == c.n || c.c[i] == '/') { if (k == idx) { *b = s; *e = i; found = true; } k++; s = i + 1; } } }
 #if H_LAW == 5
 static Buf g_glob[2]; static int g_nglob; static bool g_globerr;
 namespace Oomd { SystemMaybe<std::vector<std::string>> Fs::glob(const std::string&, bool) { if (g_globerr) return SYSTEM_ERROR(EINVAL); std::vector<std::string> v; for (int i = 0; i < g_nglob; i++) v.push_back(str(g_glob[i])); return v; } }
@@ -42,7 +43,7 @@ extern "C" void harness(void) {
   vf_check(eq(r, cs), "C16: relative path is the canonical form (empty, duplicate, leading and trailing slashes ignored)");
   const std::string& a = p.absolutePath();
   bool okabs = a.size() == (size_t)(2 + (cs.n ? 1 + cs.n : 0)) && a[0] == '/' && a[1] == 'c';
-  if (okabs && cs.n) { okabs = a[2] == '/'; for (int i = 0; i < cs.n && okabs; i++) okabs = a[3 + i] == cs.c[i]; }
+  if (okabs && cs.n) { okabs = a[2] == '/'; for (int i = 0; i < MAXB; i++) if (i < cs.n && okabs) okabs = a[3 + i] == cs.c[i]; }
   vf_check(okabs, "C16: absolute path = cgroup-fs root + '/' + relative path (root alone for the root cgroup)");
   vf_check(p.isRoot() == (cs.n == 0), "C16: isRoot iff the canonical relative path is empty");
   vf_check((int)p.relativePathParts().size() == ncomp(cs), "C16: number of components");
@@ -52,7 +53,7 @@ extern "C" void harness(void) {
   if (cs.n > 0 && cs.n < H_LEN) vf_check(false, "REACH: slashes were dropped by canonicalisation");
 #elif H_LAW == 2
   Buf c = sym(30, H_LEN2);
-  bool single = c.n > 0; for (int i = 0; i < c.n; i++) if (c.c[i] == '/') single = false;
+  bool single = c.n > 0; for (int i = 0; i < H_LEN2; i++) if (c.c[i] == '/') single = false;
   CgroupPath p("/c", str(s));
   CgroupPath ch = p.getChild(str(c));
   if (single) {
@@ -63,7 +64,7 @@ extern "C" void harness(void) {
   }
   Buf cc = canon(c);
   // child of arbitrary (multi-component) suffix = canonical concatenation
-  Buf want; want.n = 0; for (int i = 0; i < cs.n; i++) want.c[want.n++] = cs.c[i]; if (cs.n && cc.n) want.c[want.n++] = '/'; for (int i = 0; i < cc.n; i++) want.c[want.n++] = cc.c[i]; want.c[want.n] = 0;
+  Buf want; want.n = 0; for (int i = 0; i < MAXB; i++) if (i < cs.n) want.c[want.n++] = cs.c[i]; if (cs.n && cc.n) want.c[want.n++] = '/'; for (int i = 0; i < MAXB; i++) if (i < cc.n) want.c[want.n++] = cc.c[i]; want.c[want.n] = 0;
   vf_check(eq(ch.relativePath(), want), "C16: getChild appends the canonical components of its argument");
   if (cs.n > 0) { bool threw = false; try { CgroupPath par = p.getParent(); vf_check((int)par.relativePathParts().size() == ncomp(cs) - 1, "C16: parent drops exactly the last component"); } catch (...) { threw = true; } vf_check(!threw, "C16: getParent of a non-root path does not throw"); }
   else { bool threw = false; try { p.getParent(); } catch (const std::invalid_argument&) { threw = true; } vf_check(threw, "C16: getParent of root is rejected"); }
@@ -83,7 +84,7 @@ extern "C" void harness(void) {
   // reference (docs/prekill_hooks.md): true iff path equals the pattern, is an ancestor of a possible match, or descends
   // from a match; '*' stands for exactly one whole component; anything else must match literally
   int n1 = ncomp(cs), n2 = ncomp(cp), m = n1 < n2 ? n1 : n2; bool want = true;
-  for (int i = 0; i < m && i < 6; i++) { int b1, e1, b2, e2; comp(cs, i, &b1, &e1); comp(cp, i, &b2, &e2); bool star = (e2 - b2 == 1 && cp.c[b2] == '*'); bool lit = (e1 - b1 == e2 - b2); for (int k = 0; lit && k < e1 - b1; k++) if (cs.c[b1 + k] != cp.c[b2 + k]) lit = false; if (!star && !lit) want = false; }
+  for (int i = 0; i < MAXB; i++) { if (i >= m) continue; int b1, e1, b2, e2; comp(cs, i, &b1, &e1); comp(cp, i, &b2, &e2); bool star = (e2 - b2 == 1 && cp.c[b2] == '*'); bool lit = (e1 - b1 == e2 - b2); for (int k = 0; k < MAXB; k++) if (lit && k < e1 - b1 && cs.c[b1 + k] != cp.c[b2 + k]) lit = false; if (!star && !lit) want = false; }
   vf_check(p.hasDescendantWithPrefixMatching(pp) == want, "C16: prekill-hook pattern match = equal / ancestor of a possible match / descendant of a match, '*' = one whole component");
   if (want && n1 > n2 && n2 > 0) vf_check(false, "REACH: path descends from a match");
   if (want && n1 < n2 && n1 > 0) vf_check(false, "REACH: path is an ancestor of a possible match");
@@ -100,7 +101,7 @@ extern "C" void harness(void) {
     bool under = b.n >= 2 && b.c[0] == '/' && b.c[1] == 'c' && (b.n == 2 || b.c[2] == '/');
     if (under) {
       vf_check(exp < (int)out.size(), "C16: every glob result under the cgroup-fs root is kept");
-      if (exp < (int)out.size()) { Buf rel; rel.n = 0; for (int i = 3; i < b.n; i++) rel.c[rel.n++] = b.c[i]; rel.c[rel.n] = 0; Buf cr = canon(rel); vf_check(eq(out[exp].relativePath(), cr), "C16: resolved path is the glob result relative to the cgroup-fs root"); }
+      if (exp < (int)out.size()) { Buf rel; rel.n = 0; for (int i = 3; i < H_LEN2; i++) rel.c[rel.n++] = b.c[i]; rel.c[rel.n] = 0; Buf cr = canon(rel); vf_check(eq(out[exp].relativePath(), cr), "C16: resolved path is the glob result relative to the cgroup-fs root"); }
       exp++;
     }
   }
@@ -114,9 +115,9 @@ extern "C" void harness(void) {
   auto set = PluginArgParser::parseCgroup(PluginConstructionContext("/c"), str(a));
   // reference: distinct canonical forms of the non-empty pieces
   Buf pieces[6]; int np = 0; int st = 0;
-  for (int i = 0; i <= a.n; i++) if (i == a.n || a.c[i] == ',') { if (i > st) { Buf piece; piece.n = 0; for (int k = st; k < i; k++) piece.c[piece.n++] = a.c[k]; piece.c[piece.n] = 0; Buf c = canon(piece); bool dup = false; for (int q = 0; q < np; q++) if (beq(pieces[q], c)) dup = true; if (!dup && np < 6) pieces[np++] = c; } st = i + 1; }
+  for (int i = 0; i <= a.n; i++) if (i == a.n || a.c[i] == ',') { if (i > st) { Buf piece; piece.n = 0; for (int k = 0; k < H_LEN; k++) if (k >= st && k < i) piece.c[piece.n++] = a.c[k]; piece.c[piece.n] = 0; Buf c = canon(piece); bool dup = false; for (int q = 0; q < 6; q++) if (q < np && beq(pieces[q], c)) dup = true; if (!dup && np < 6) pieces[np++] = c; } st = i + 1; }
   vf_check((int)set.size() == np, "C16: comma-separated cgroup argument yields one path per distinct non-empty piece");
-  for (int q = 0; q < np; q++) { bool found = false; for (const auto& cp : set) if (eq(cp.relativePath(), pieces[q])) found = true; vf_check(found, "C16: every comma-separated piece is present in canonical form"); }
+  for (int q = 0; q < 6; q++) { if (q >= np) continue; bool found = false; for (const auto& cp : set) if (eq(cp.relativePath(), pieces[q])) found = true; vf_check(found, "C16: every comma-separated piece is present in canonical form"); }
   if (np == 2) vf_check(false, "REACH: two distinct pieces");
 #endif
   vf_event(EV_END, 0, 0, 0, 0);
